@@ -129,7 +129,9 @@ def validate_into_var(S, var, F, T, attrs_var_ok, label, site):
                 return 'the explicit marker is not "this field\'s own target list contains this target" (guards %s)' % [atom_s(x)[:70] for x in marks]
             # method = the method registered for this target on this field
             mt = terms[2]
-            okm = mt in (('proj', 1, ('some_of', g2[0][1])), ('some_of', g2[0][1]))
+            g2t = g2[0][1]
+            as_get = ('mcall', g2t[1], 'get', g2t[3])
+            okm = mt in (('proj', 1, ('some_of', g2t)), ('some_of', g2t), ('some_of', as_get))
             if not okm:
                 return 'the method recorded with the designation is not the one registered for this target on this field (%s)' % term_s(mt, 80)
             kinds.add('marked')
@@ -450,12 +452,15 @@ def check_hash_type(cx, rep):
     fw = cx.fw(f)
     tm = cx.gm.terms_of(fw)
     t = tm.block_value_term(f.block, 0)
-    # HashType::from(if is_ref { match <written lifetime of ty> { Some(l) => parse2(quote!(&#l #ty)), None => parse2(quote!(&'static #ty)) } }
-    #                else { ty.clone() })   with (ty, is_ref) = dereference_changed(ty)
+    # Decided on the case table of the result term, whatever the control structure: pushing `HashType::from` through the
+    # conditionals,  (ty is a reference, lifetime written)  -> from(parse2(`&#lifetime #inner`)),
+    #                (ty is a reference, no lifetime)      -> from(parse2(`&'static #inner`)),
+    #                (ty is not a reference)               -> from(ty)
+    # with inner = ty stripped of all reference layers (dereference_changed(ty).0 / dereference(reference.elem)).
     dc = ('call', 'crate::common::r#type::dereference_changed', ('param', 'ty'))
     from ..terms import subterms as _st
-    ok = False
     why = 'the type key is no longer "token string of the type; a reference keeps its written lifetime and is `&\'static` only without one"'
+    TY = ('param', 'ty')
 
     def tmpl_of(x):
         if isinstance(x, tuple) and x[0] == 'unwrap' and isinstance(x[1], tuple) and x[1][0] == 'call' and str(x[1][1]).endswith('parse2') and x[1][2][0] == 'tmpl':
@@ -463,23 +468,74 @@ def check_hash_type(cx, rep):
                 if id(t2.mac) == x[1][2][1]:
                     return t2
         return None
-    if isinstance(t, tuple) and t[0] == 'call' and str(t[1]).endswith('HashType::from') and isinstance(t[2], tuple) and t[2][0] == 'ite':
-        c, a, b = t[2][1], t[2][2], t[2][3]
-        if c == ('proj', 1, dc) and b == ('proj', 0, dc):
-            ta = tmpl_of(a)
-            if ta is not None and ta.text().replace(' ', '') == "&'static#ty":
-                why = 'every reference type is keyed (and emitted) as `&\'static T`, also when the attribute or the field names another lifetime: `Into(&\'a str)` yields `impl Into<&\'static str>`'
-            if isinstance(a, tuple) and a[0] == 'iflet' and a[1].startswith('Some('):
-                L, A, B = a[2], tmpl_of(a[3]), tmpl_of(a[4])
-                lt_of_param = any(isinstance(x, tuple) and x[0] == 'field' and x[2] == 'lifetime' and isinstance(x[1], tuple) and x[1][0] == 'payload'
-                                  and x[1][1] == 'Type::Reference' and x[1][3] == ('param', 'ty') for x in _st(L))
-                if lt_of_param and A is not None and B is not None and B.text().replace(' ', '') == "&'static#ty" and B.hole_term('ty') == ('proj', 0, dc):
-                    txt = A.text().replace(' ', '')
-                    hs = [h for h in A.holes if h != 'ty']
-                    if len(hs) == 1 and txt == '&#%s#ty' % hs[0] and A.hole_term('ty') == ('proj', 0, dc):
-                        ht = A.hole_term(hs[0])
-                        if any(x == L for x in _st(ht)) or ht == ('payload', 'Some', 0, L):
-                            ok = True
+
+    def is_inner(x):
+        if x == ('proj', 0, dc):
+            return True
+        if isinstance(x, tuple) and x[0] == 'call' and str(x[1]).endswith('r#type::dereference') and len(x) == 3:
+            y = x[2]
+            while isinstance(y, tuple) and y[0] == 'mcall' and y[2] in ('as_ref',) and len(y) == 3:
+                y = y[1]
+            return isinstance(y, tuple) and y[0] == 'field' and y[2] == 'elem' and isinstance(y[1], tuple) and y[1][0] == 'payload' and y[1][1] == 'Type::Reference' and y[1][3] == TY
+        return False
+
+    def is_lifetime_of_ty(L):
+        return any(isinstance(x, tuple) and x[0] == 'field' and x[2] == 'lifetime' and isinstance(x[1], tuple) and x[1][0] == 'payload'
+                   and x[1][1] == 'Type::Reference' and x[1][3] == TY for x in _st(L))
+
+    def cases(x, conds, wrapped):
+        """[(conds, leaf, wrapped-in-HashType::from)]"""
+        if isinstance(x, tuple) and x and x[0] == 'call' and str(x[1]).endswith('HashType::from') and len(x) == 3:
+            return cases(x[2], conds, True)
+        if isinstance(x, tuple) and x and x[0] == 'ite':
+            return cases(x[2], conds + [('ref', True)] if x[1] == ('proj', 1, dc) else conds + [('?', x[1])], wrapped) + \
+                cases(x[3], conds + [('ref', False)] if x[1] == ('proj', 1, dc) else conds + [('?', x[1])], wrapped)
+        if isinstance(x, tuple) and x and x[0] == 'iflet' and len(x) == 5:
+            if x[1].startswith('Type::Reference(') and x[2] == TY:
+                return cases(x[3], conds + [('ref', True)], wrapped) + cases(x[4], conds + [('ref', False)], wrapped)
+            if x[1].startswith('Some(') and is_lifetime_of_ty(x[2]):
+                return cases(x[3], conds + [('lt', True, x[2])], wrapped) + cases(x[4], conds + [('lt', False, x[2])], wrapped)
+            return [(conds + [('?', x[1])], x, wrapped)]
+        return [(conds, x, wrapped)]
+    table = cases(t, [], False)
+    ok = bool(table)
+    seen_cases = set()
+    only_static = False
+    for conds, leaf, wrapped in table:
+        cd = {c[0]: c[1] for c in conds if c[0] in ('ref', 'lt')}
+        if any(c[0] == '?' for c in conds) or not wrapped:
+            ok = False
+            continue
+        if cd.get('ref') is False:
+            if leaf not in (('proj', 0, dc), TY, ('mcall', TY, 'clone')):
+                ok = False
+            seen_cases.add('nonref')
+            continue
+        tl = tmpl_of(leaf)
+        if tl is None or not is_inner(tl.hole_term('ty')):
+            ok = False
+            continue
+        txt = tl.text().replace(' ', '')
+        if 'lt' not in cd:
+            # a reference, whatever its lifetime: only right if ... never (a written lifetime would be replaced)
+            if txt == "&'static#ty":
+                only_static = True
+            ok = False
+            continue
+        if cd['lt'] is False:
+            if txt != "&'static#ty":
+                ok = False
+            seen_cases.add('static')
+        else:
+            hs = [h for h in tl.holes if h != 'ty']
+            L = [c[2] for c in conds if c[0] == 'lt'][0]
+            if not (len(hs) == 1 and txt == '&#%s#ty' % hs[0] and (tl.hole_term(hs[0]) == ('payload', 'Some', 0, L) or any(x == L for x in _st(tl.hole_term(hs[0]))))):
+                ok = False
+            seen_cases.add('written')
+    if seen_cases != {'nonref', 'static', 'written'}:
+        ok = False
+    if only_static:
+        why = 'every reference type is keyed (and emitted) as `&\'static T`, also when the attribute or the field names another lifetime: `Into(&\'a str)` yields `impl Into<&\'static str>`'
     if ok:
         rep.ok('SUM-INTO', f.qname + '|normalised type key', {'helper': f.qname})
     else:
